@@ -80,13 +80,15 @@ def It.full (s : It α) : Bool :=
 def bump (p : Nat) : Nat := (Gen.ArrowExpr.nextBump (p : Int)).toNat
 
 /-- The `while row is None` loop of the repaired `__next__` (converters.py:52-63): take tables
-until one has a row; `none` = the tables ran out (`StopIteration`). -/
+until one has a row; `none` = the tables ran out (`StopIteration`).  Whether the fetch *is* a loop is
+read from the source (`Gen.ArrowExpr.fetchLoops`: `while row is None` vs `if row is None`); fetched once,
+a table without rows ends the stream (the pre-repair behaviour, modelled exactly by `nextPinned`). -/
 def fetch (batch : Nat) : List (Table α) → Option (α × List α × List (Table α))
   | [] => none
   | t :: ts =>
     match processTable batch t with
     | r :: rest => some (r, rest, ts)
-    | [] => fetch batch ts
+    | [] => if Gen.ArrowExpr.fetchLoops then fetch batch ts else none
 
 /-- `__next__` as repaired.  `none` = `StopIteration`. -/
 def next (s : It α) : Option α × It α :=
@@ -143,9 +145,57 @@ def batchOf (size : Option Nat) : Nat :=
   | some k => (Gen.ArrowExpr.limitedBatch (k : Int) (Gen.Arrow.batchSize : Int)).toNat
   | none => Gen.Arrow.batchSize
 
+/-- converters.py:103-120: the first table is taken off the stream for the schema; the stream
+`_RowsIterator` is given is `itertools.chain([first_table], tables)` — *generated*: whether the first
+table is chained back (`Gen.ArrowExpr.streamKeepsFirst`). -/
+def streamOf (tables : List (Table α)) : List (Table α) :=
+  if Gen.ArrowExpr.streamKeepsFirst then tables else tables.drop 1
+
 /-- converters.py:121-127. -/
 def init (tables : List (Table α)) (size : Option Nat) : It α :=
-  { tables := tables, current := [], processed := 0, maxSize := limitOf size, batch := batchOf size }
+  { tables := streamOf tables, current := [], processed := 0, maxSize := limitOf size, batch := batchOf size }
+
+/-- What a caller passes as `tables`: one table, or a list / a tuple / a generator of tables. -/
+inductive Input (α : Type) where
+  | single (t : Table α)
+  | list (ts : List (Table α))
+  | tuple (ts : List (Table α))
+  | generator (ts : List (Table α))
+
+/-- The Python type name the `isinstance` tests see. -/
+def Input.shape : Input α → String
+  | .single _ => "Table"
+  | .list _ => "list"
+  | .tuple _ => "tuple"
+  | .generator _ => "Generator"
+
+/-- The tables the caller means. -/
+def Input.tables : Input α → List (Table α)
+  | .single t => [t]
+  | .list ts => ts
+  | .tuple ts => ts
+  | .generator ts => ts
+
+/-- converters.py:91-95, the input dispatch: `if not isinstance(tables, (typing.Generator, list, tuple)):
+tables = [tables]`, then `if isinstance(tables, (list, tuple)): tables = iter(tables)` — the two tuples of type
+names are *generated* (`Gen.ArrowExpr.acceptedShapes`, `iteredShapes`).  The result is the stream of tables the
+rest of `from_arrow` draws from with `next(tables, None)`; `none` = that raises (a list that was not turned into
+an iterator: `TypeError`; a tuple that was wrapped as if it were one table: `AttributeError` on `.schema`). -/
+def inputStream (x : Input α) : Option (List (Table α)) :=
+  if Gen.ArrowExpr.acceptedShapes.contains x.shape then
+    match x with
+    | .generator ts => some ts
+    | .single _ => none
+    | .list ts => if Gen.ArrowExpr.iteredShapes.contains "list" then some ts else none
+    | .tuple ts => if Gen.ArrowExpr.iteredShapes.contains "tuple" then some ts else none
+  else
+    match x with
+    | .single t => if Gen.ArrowExpr.iteredShapes.contains "list" then some [t] else none
+    | _ => none
+
+/-- `from_arrow(x, size)` iterated to the end, for any of the four shapes of argument. -/
+def fromArrowInput (x : Input α) (size : Option Nat) : Option (List α) :=
+  (inputStream x).map (fun ts => drain (init ts size))
 
 /-- The rows `from_arrow(tables, size)` delivers when iterated to the end. -/
 def fromArrowRows (tables : List (Table α)) (size : Option Nat) : List α := drain (init tables size)
@@ -364,12 +414,15 @@ def backTy (mappableAsBinary : Bool) (t : ArrowTy) : Option (OrsoTy × Option Or
       | _ => none                                                   -- no `.value_type`
     else some ((pythonToOrso c).getD .VARCHAR, none, none, none)
 
-/-- `FlatColumn.__init__` (schema.py:206-212) for a DECIMAL column: a missing precision becomes
-`DECIMAL_PRECISION`, a missing scale `int(0.75 * precision)`. -/
+/-- `FlatColumn.__init__` (schema.py, the decimal block at its end) for a DECIMAL column: the two
+*generated* updates (`Gen.ArrowExpr.initPrecision`: a missing precision becomes the interpreter's decimal
+precision; `Gen.ArrowExpr.initScale`: a missing scale becomes `int(0.75 * precision)` of the precision
+just set).  Every column passes through it, the one `FlatColumn.from_arrow` builds included. -/
 def normalise (t : OrsoTy) (p s : Option Nat) : Option Nat × Option Nat :=
   if t = .DECIMAL then
-    let p' := p.getD Gen.Arrow.decimalPrecision
-    (some p', some (s.getD (3 * p' / 4)))
+    match Gen.ArrowExpr.initPrecision (p.map Int.ofNat) with
+    | some pv => (some pv.toNat, (Gen.ArrowExpr.initScale (s.map Int.ofNat) pv).map Int.toNat)
+    | none => (none, (Gen.ArrowExpr.initScale (s.map Int.ofNat) 0).map Int.toNat)
   else (p, s)
 
 /-- `FlatColumn.from_arrow(field, mappable_as_binary)`. -/
